@@ -1,4 +1,4 @@
 (* Extraction of the agent core model, its observation projection and the monitors. *)
 From Coq Require Import Extraction ExtrOcamlBasic ZArith String.
-From Ice Require Import Model.ConvTypes Model.PrioSpec Model.AgentTypes Model.AgentCore Model.AgentObs Model.AgentMonitors Model.PairMonitor Model.TwoAgents.
-Extraction "model.ml" conv_witness init step canon_outs snap_of_state monitor C01_checks sys_init sys_step failed all_ok.
+From Ice Require Import Model.ConvTypes Model.PrioSpec Model.AgentTypes Model.AgentCore Model.AgentObs Model.AgentMonitors Model.PairMonitor Model.TwoAgents Model.TwoAgentsData.
+Extraction "model.ml" conv_witness init step canon_outs snap_of_state monitor C01_checks sys_init sys_step dsys_init dsys_step failed all_ok.
